@@ -45,6 +45,7 @@ class GpgStub:
         self.w = world
         self.fail = None       # None | "create" | "export"
         self.calls = []
+        self.last_content_hash = None
 
     def headers_for(self, fpr, t):
         sub = bytes([0x16, 0x21, 0x04]) + bytes.fromhex(fpr) + bytes([0x05, 0x02]) + int(t).to_bytes(4, "big")
@@ -59,8 +60,8 @@ class GpgStub:
         hdr = self.headers_for(keyid, int(w.clock) % 2**32)
         dig = pgp_digest(bytes(content), hdr)
         sig = w.keys.priv[i].sign(dig)
-        w.ledger.record_pgp(w.keys.pub[i], __import__("hashlib").sha256(bytes(content)).hexdigest(),
-                            hdr.hex(), sig.hex())
+        self.last_content_hash = __import__("hashlib").sha256(bytes(content)).hexdigest()
+        w.ledger.record_pgp(w.keys.pub[i], self.last_content_hash, hdr.hex(), sig.hex())
         return {"keyid": keyid, "other_headers": hdr.hex(), "signature": sig.hex()}
 
     def export_pubkey(self, keyid, homedir=None):
@@ -158,6 +159,8 @@ class EnvelopeWorld(World):
         self.attacked = [set() for _ in range(0)]
         self.env_faults = []
         self.sample_ctr = 0
+        self.libmade = set()      # (pub, signature hex) of entries produced by the library's own signer
+        self.gpg_signed = []      # sha256 of the bytes the library handed to the GPG seam
         run.ev("cryptography-modules", [m for m in self.lib.crypto_modules_at_load
                                         if m.endswith(("backends", "hashes"))])
         # harness integrity: the key ring's public keys equal RFC 8032's for key 0
@@ -272,6 +275,7 @@ class EnvelopeWorld(World):
                 self.run.violate(("C09",), "sign-entry", "no well-formed entry under the signer's public key hex")
                 return
             self.ledger.record_raw(pub, payload_hash(E["signed"]), ent["signature"])
+            self.libmade.add((pub, ent["signature"]))
             if self._sampled(self.h.get("indep_sample", 0.03)):
                 self.run.probe("indep_recheck_of_lib_signature")
                 if rfc8032.sign(self.keys.seeds[i], signed_before).hex() != ent["signature"]:
@@ -285,6 +289,10 @@ class EnvelopeWorld(World):
                                  "gpg-sign-failed:" + o.cls)
                 return
             ent = E["signatures"].get(pub)
+            if self.gpgstub.last_content_hash != payload_hash(E["signed"]):
+                self.run.violate(("C10", "C07"), "gpg-signed-wrong-bytes",
+                                 "the bytes handed to GnuPG are not the reference canonical bytes of the payload")
+                return
             if not ref_is_pgp_entry(ent):
                 self.run.violate(("C10",), "gpg-entry", "GPG path did not file a well-formed OpenPGP entry under q")
                 return
@@ -322,6 +330,7 @@ class EnvelopeWorld(World):
         ent = E["signatures"].get(pub)
         if type(ent) is dict and ref_is_raw_entry(ent):
             self.ledger.record_raw(pub, payload_hash(E["signed"]), ent["signature"])
+            self.libmade.add((pub, ent["signature"]))
         b1 = refcanon(E)
         o = self.calls.raw("sign_signable", E, self.keys.priv[i])
         if not o.ok or refcanon(E) != b1:
@@ -441,6 +450,7 @@ class EnvelopeWorld(World):
             ent = outs[0]["signatures"].get(self.keys.pub[i])
             if isinstance(ent, dict) and ref_is_raw_entry(ent):
                 self.ledger.record_raw(self.keys.pub[i], payload_hash(op["payload"]), ent["signature"])
+                self.libmade.add((self.keys.pub[i], ent["signature"]))
         auth = [self.keys.pub[i] for i in sorted(set(order))]
         for t in (len(auth), len(auth) + 1):
             o = self.calls.call("verify_signable", outs[0], auth, t)
@@ -482,6 +492,13 @@ class EnvelopeWorld(World):
             if type(t) is int:
                 n_ind = self._indep_count(E, auth, gpg)
                 if n_ind < t:
+                    bad = [kk for kk in counted if not independent_entry_valid(kk, E["signed"], E["signatures"][kk], gpg)]
+                    if bad and all((kk, E["signatures"][kk].get("signature")) in self.libmade for kk in bad):
+                        run.violate(("C09", "C02", "C07"), "lib-signature-invalid",
+                                    "a signature produced by the library's own signer does not verify over the "
+                                    "reference canonical bytes of the payload (independent RFC 8032 check)",
+                                    "lib-signature-invalid")
+                        return
                     raise HarnessError("ledger says %d >= t, independent verifier says %d" % (k, n_ind))
                 site = __import__("seams").exc_site(self.lib, o.exc)
                 run.violate(("C02", "C09", "C10") if gpg else ("C02", "C09"), "rejected-with-quorum",
